@@ -1153,6 +1153,25 @@ def multiname_order_model(repo):
         out.append(('order', 'nested union with a repeated alternative', got == alts,
                     'a union of a binding and a union sharing an alternative must list each distinct alternative once, in source '
                     'order; got %s' % (got,), 'nested/repeated alternatives flatten to source order'))
+        # round 13 (C17-r13-multiname-sorted-only-with-a-plain-name): a join every branch of which is itself a join - no
+        # plain name among the rows (an if/else whose arms each hold an if/else binding the name)
+        d = st.obj('AssignedName', 'alt@11', name='v', location=(11, 5), declared_at=(11, 4), value_node=None)
+        a, b, c = alts
+        for label, groups, want in (
+                ('later union first', [[c, d], [a, b]], [a, b, c, d]),
+                ('interleaved unions', [[b, d], [a, c]], [a, b, c, d]),
+                ('unions sharing an alternative', [[c, a], [b, c]], [a, b, c]),
+                ('three unions', [[d, c], [b, a], [c, a]], [a, b, c, d])):
+            for perm in itertools.permutations(groups):
+                try:
+                    got = st.it.getattr(mk([mk(g) for g in perm]), 'alt_names')
+                except InterpRaise as e:
+                    got = str(e)
+                what = ' + '.join('(%s)' % '/'.join(x.label for x in g) for g in perm)
+                out.append(('order', 'a union of unions only (%s): %s' % (label, what), got == want,
+                            'a join whose incoming regions each carry their own union of the name (no plain binding among them) '
+                            'must list the distinct alternatives in source order; got %s' % (got,),
+                            'alt_names of unions-only %s = source order' % what))
         return out
     return repo.memo('multiname-order-model', lambda: both_orders(build))
 
